@@ -107,6 +107,25 @@ func runC02(p *Plan, res *world.Result) {
 		})
 	}
 	s.Run(3000, nil)
+	// history: every genuine value has now been through its cipher at least once. Strings derived from them that
+	// nobody sealed are refused, the first time and when presented again at once (by the driver; nothing else runs)
+	if len(s.Stuck()) == 0 && s.Err == "" {
+		for i, sv := range pre {
+			for k, how := range []string{"tail", "flip", "tail", "extend", "truncate"} {
+				forged := world.Corrupt(sv.value, how, p.P["mix"]+7*i+k, "AA")
+				if forged == sv.value {
+					continue
+				}
+				for attempt := 1; attempt <= 2; attempt++ {
+					v.cover("C02.A4|sched|after-history|%s|attempt=%d", how, attempt)
+					if got, err := sessions.UnmarshalSession(forged, ciphers[sv.cipher]); err == nil {
+						v.violate("C02.A4-only-unmodified-values-open", fmt.Sprintf("a string nobody sealed (%s of a genuine value, presentation %d) opened to the session of %s", how, attempt, got.Email),
+							"kind", "after-history", "facet", how)
+					}
+				}
+			}
+		}
+	}
 	// C02.A3: sealing the same value twice gives different strings — by the same instance, and by a
 	// second instance built from the same secret at the same instant (a restarted process, or the
 	// proxy's one cookie cipher per upstream): the clock of the bubble has not moved since the first
